@@ -126,6 +126,12 @@ def r1(chk, prog):
                   'format() reachable after the conversion in the same iteration: %s' % bad[:2])
         ok = all(before(convs, s) for s in sts)
         chk.check(ok, 'R1', f.name, 'only converted values are stored [%s]' % tag, f.loc(loop))
+        # every element of the list is worked through: the loop is left by the end of the list or by an exception,
+        # never by return (a duplicate that is dropped silently must not end the word)
+        rets = [x for x in walk(loop) if x.get('k') == 'ReturnStmt']
+        chk.check(not rets, 'R1', f.name, 'the split loop handles every element of the value list (no return inside '
+                  'the loop) [%s]' % tag, f.loc(rets[0]) if rets else f.loc(loop),
+                  'the remaining elements of the word are dropped silently')
         # unique test between conversion and store
         uq = [bid for bid, cond in cfg.cond_blocks() if cond is not None and mentions_field(cond, 'mUniqueData')]
         if uq:
@@ -388,6 +394,11 @@ def r2(chk, prog):
                     bad.append(nm)
                 elif c.get('k') == 'CallExpr' and nm in MUT_ALGOS and (c.get('callee') or '').startswith('std::') and \
                         any(mentions_field(a, 'mDestCont') for a in call_args(c)):
+                    bad.append('std::' + nm)
+                elif c.get('k') == 'CallExpr' and nm in ('move', 'exchange') and (c.get('callee') or '').startswith('std::') \
+                        and any(mentions_field(a, 'mDestCont') for a in call_args(c)):
+                    # the destination is a reference to the application's variable: handing it on as an rvalue lets
+                    # the callee (a by-value parameter) take its content away
                     bad.append('std::' + nm)
             chk.check(not bad, 'R2', g.name, '%s() does not modify a destination [%s]' % (obs, tag), g.loc(),
                       'it calls %s on a destination container' % ', '.join(sorted(set(bad))))
